@@ -321,8 +321,9 @@ def classify(text: str) -> Tuple[str, Any]:
 def word_worker(task: Tuple) -> Dict[str, Any]:
     families.boot()
     reps, prefixes, L = task
-    bad: List[Tuple[str, str, str]] = []
+    bad: List[Tuple] = []
     n = ok = rej = 0
+    history: List[str] = []           # texts this process parsed before (for history-dependent results)
     for pre in prefixes:
         for tail in itertools.product(reps, repeat=L - len(pre)):
             text = "".join(pre) + "".join(tail)
@@ -330,18 +331,54 @@ def word_worker(task: Tuple) -> Dict[str, Any]:
             (u, q) = classify(text)
             for which, (st, why) in (("Unit.parse", u), ("Quantity.parse", q)):
                 if st == "bad" and len(bad) < 50:
-                    bad.append((text, which, why))
+                    bad.append((text, which, why, list(history) if len(bad) < 3 else []))
                 ok += st == "ok"
                 rej += st == "rejected"
+            history.append(text)
     return {"n": n, "ok": ok, "rejected": rej, "bad": bad}
 
 
-def replay(text: str, why: str) -> str:
+def minimise_history(text: str, why: str, history: List[str]) -> List[str]:
+    """A result that depends on what the process parsed before: shrink the texts parsed earlier
+    to a short list after which the replay of `text` still shows the violation (halving)."""
+    import os
+
+    def shows(h: List[str]) -> bool:
+        tmp = os.path.join(report.REPLAY_DIR, "_c17_probe.py")
+        os.makedirs(report.REPLAY_DIR, exist_ok=True)
+        with open(tmp, "w") as f:
+            f.write("import sys\n" + replay(text, why, h))
+        okr, _ = report.run_replay(tmp)
+        os.remove(tmp)
+        return okr
+
+    if shows([]) or not history or not shows(history):
+        return []
+    h = list(history)
+    while len(h) > 1:
+        half = len(h) // 2
+        a, b = h[half:], h[:half]
+        if shows(a):
+            h = a
+        elif shows(b):
+            h = b
+        else:
+            break
+    return h
+
+
+def replay(text: str, why: str, history: List[str] = ()) -> str:
     return families.REPLAY_IMPORTS + f"""import re
 from measured import Unit, Quantity
 from measured.parsing import ParseError
 text = {text!r}
 FLOAT = re.compile({float_re().pattern!r})     # the grammar's SIGNED_FLOAT terminal
+for earlier in {list(history)!r}:              # what the process had parsed before (history-dependent results)
+    for fn in (Unit.parse, Quantity.parse):
+        try:
+            fn(earlier)
+        except Exception:
+            pass
 bad = []
 for fn, typ in ((Unit.parse, Unit), (Quantity.parse, Quantity)):
     names, symbols = dict(Unit._by_name), dict(Unit._by_symbol)
@@ -363,6 +400,82 @@ if bad:
     print('REPRODUCED ({why}):', bad); sys.exit(1)
 sys.exit(0)
 """
+
+
+def callback_arithmetic(rep: report.Report) -> None:
+    """The semantic callbacks `term`, `unit_sequence`, `unit` with every exponent the exponent
+    terminals can denote (|n| < 10**digit-limit, symbolic): the unit arithmetic they do may raise
+    only ParseError / KeyError.  Runs the real callbacks on real resolved units with the intern
+    tables modelled (E2) and CPython's int -> float range check switched on in the proxies."""
+    import measured
+    from measured import parsing
+
+    T = parsing.QuantityTransformer
+    tr = T()
+    limit = sys.get_int_max_str_digits() if hasattr(sys, "get_int_max_str_digits") else 4300
+    bound = 10 ** (limit or 4300)
+    n, m = z3.Int("n"), z3.Int("m")
+    # one representative per kind of prefix arithmetic: none, base 10, base 2, and a unit whose
+    # prefix exponent is a float because it mixes bases (kilo-byte: 10**3 * 2**3)
+    syms = ["m", "km", "Kib", "kB"]
+    allowed = (parsing.ParseError, KeyError)
+    configs: List[Tuple[str, Any, str]] = []
+    for sy in syms:
+        configs.append((f"term({sy!r}, n)", lambda sy=sy: T.term.base_func(tr, sy, symnum.SInt(n)), f"{sy}^{{n}}"))
+    for a_, b_ in (("km", "Kib"), ("Kib", "km"), ("km", "km"), ("m", "kB")):
+        configs.append((f"unit_sequence(term({a_!r}, n), term({b_!r}, m))",
+                        lambda a_=a_, b_=b_: T.unit_sequence.base_func(
+                            tr, T.term.base_func(tr, a_, symnum.SInt(n)), T.term.base_func(tr, b_, symnum.SInt(m))),
+                        f"{a_}^{{n}}⋅{b_}^{{m}}"))
+        configs.append((f"unit(term({a_!r}, n), term({b_!r}, m))",
+                        lambda a_=a_, b_=b_: T.unit.base_func(
+                            tr, T.term.base_func(tr, a_, symnum.SInt(n)), T.term.base_func(tr, b_, symnum.SInt(m))),
+                        f"{a_}^{{n}}/{b_}^{{m}}"))
+    symnum.FLOAT_RANGE[0] = True
+    old_limit = sys.get_int_max_str_digits() if hasattr(sys, "get_int_max_str_digits") else None
+    if old_limit is not None:
+        sys.set_int_max_str_digits(0)       # the harness writes numerals with more digits than the limit
+    try:
+        for name, fn, template in configs:
+            with symnum.Shims(), im.Tables("absent") as tables:
+                def run(fn: Any = fn) -> Any:
+                    tables.reset()
+                    return fn()
+                ex = symnum.explore(run, assumptions=[n > -bound, n < bound, m > -bound, m < bound],
+                                    max_paths=200)
+            rep.merge_stats(queries=ex.queries, solver_s=ex.solver_s, paths=len(ex.paths), stubs=ex.stubs)
+            for i, p in enumerate(ex.paths):
+                key = ("callback-arithmetic", name, i)
+                if p.exc is None or isinstance(p.exc, allowed):
+                    rep.ob("unsat", f"callback arithmetic: {name}#p{i}: returns or raises ParseError/KeyError", key)
+                    continue
+                if isinstance(p.exc, symnum.NotEncodable):
+                    rep.ob("unknown", f"callback arithmetic: {name}#p{i}: {p.exc}", key)
+                    continue
+                # a model of the path: the smallest exponents (in absolute value) that take it
+                S = z3.Optimize()
+                S.set("timeout", 20000)
+                S.add(p.cond, n > -bound, n < bound, m > -bound, m < bound)
+                S.minimize(z3.If(n >= 0, n, -n) + z3.If(m >= 0, m, -m))
+                if str(S.check()) != "sat":
+                    rep.ob("unknown", f"callback arithmetic: {name}#p{i}: no model", key)
+                    continue
+                mm = S.model()
+                nv = mm.eval(n, model_completion=True).as_long()
+                mv = mm.eval(m, model_completion=True).as_long()
+                text = template.format(n=nv, m=mv)
+                rep.ob("sat", f"callback arithmetic: {name}#p{i}: {type(p.exc).__name__} escapes", key)
+                rep.violation(f"C17:callback-arithmetic:{type(p.exc).__name__}:{name.split('(')[0]}",
+                              f"{name}: {type(p.exc).__name__} ({p.exc}) escapes for exponents of "
+                              f"{len(str(abs(nv)))} / {len(str(abs(mv)))} digits, e.g. Unit.parse of {text[:40]}...",
+                              replay(text, f"{type(p.exc).__name__} from the unit arithmetic of a callback"))
+    finally:
+        symnum.FLOAT_RANGE[0] = False
+        if old_limit is not None:
+            sys.set_int_max_str_digits(old_limit)
+    rep.functions.update(["measured.parsing.QuantityTransformer.term", "measured.parsing.QuantityTransformer.unit_sequence",
+                          "measured.parsing.QuantityTransformer.unit", "measured.Unit.__pow__", "measured.Prefix.__pow__",
+                          "measured.Prefix.__mul__", "measured.Prefix.__truediv__"])
 
 
 def main(tier: str, selftest_cases: int = 0) -> int:
@@ -430,12 +543,14 @@ def main(tier: str, selftest_cases: int = 0) -> int:
     rep.discharged += total - len({b[0] for b in bad})
     rep.nontrivial.update(("word", i) for i in range(min(total, 1000)))
     seen = set()
-    for text, which, why in bad:
+    for text, which, why, *hist in bad:
         sig = f"C17:{which}:{why.split(':')[0]}"
         if sig in seen:
             continue
         seen.add(sig)
-        rep.violation(sig, f"{which}({text!r}): {why}", replay(text, why))
+        earlier = minimise_history(text, why, hist[0] if hist else [])
+        rep.violation(sig, f"{which}({text!r}){' after parsing ' + repr(earlier) if earlier else ''}: {why}",
+                      replay(text, why, earlier))
     # boundary witnesses from the callback obligations
     for text, start, why in witnesses:
         (u, q) = classify(text)
@@ -444,6 +559,8 @@ def main(tier: str, selftest_cases: int = 0) -> int:
         if st == "bad":
             kind = "digit-limit" if "digit limit" in why else "callback-domain"
             rep.violation(f"C17:{kind}:{why.split()[0]}", f"{why}: {detail}", replay(text, why))
+    # (b') the unit arithmetic inside the callbacks, for every exponent that can be written
+    callback_arithmetic(rep)
     # (e) the parse path constructs units without names: no registry write (real constructor, E2)
     from props import c19
 
